@@ -51,6 +51,36 @@ if _seed:
         random.Random(int(_seed)).shuffle(items)
         return iter(items)
     pathlib.Path.glob = _glob
+    # the same for the lower-level enumeration calls (os.walk and pathlib sit on os.scandir / os.listdir)
+    _scandir, _listdir = os.scandir, os.listdir
+
+    class _Shuffled:
+        def __init__(self, it):
+            with it:
+                self._items = list(it)
+            random.Random(int(_seed)).shuffle(self._items)
+            self._it = iter(self._items)
+        def __iter__(self):
+            return self
+        def __next__(self):
+            return next(self._it)
+        def __enter__(self):
+            return self
+        def __exit__(self, *a):
+            return False
+        def close(self):
+            pass
+
+    def _scandir_shuffled(path="."):
+        return _Shuffled(_scandir(path))
+
+    def _listdir_shuffled(path="."):
+        items = _listdir(path)
+        random.Random(int(_seed)).shuffle(items)
+        return items
+
+    os.scandir = _scandir_shuffled
+    os.listdir = _listdir_shuffled
 '''
 
 
